@@ -105,6 +105,33 @@ func genValue(r *vh.Rng, depth int) interface{} {
 }
 
 // mutate returns a value derived from v; unchanged sub-values are shared by pointer.
+// genSpine returns two values nested d levels deep that share no Go object: equal, or differing only in the
+// value at the bottom of the spine.
+func genSpine(r *vh.Rng, d int) (interface{}, interface{}) {
+	bottom := genValue(r, 1)
+	var o, n interface{} = bottom, deepCopy(bottom)
+	if r.Chance(60) {
+		n = deepCopy(mutate(r, bottom, 1))
+	}
+	for i := 0; i < d; i++ {
+		switch r.Intn(4) {
+		case 0:
+			f := r.Pick(fieldNames)
+			o, n = map[string]interface{}{f: o}, map[string]interface{}{f: n}
+		case 1:
+			f := r.Pick(fieldNames)
+			k := genKeyVal(r)
+			o, n = map[string]interface{}{"__key": k, f: o}, map[string]interface{}{"__key": k, f: n}
+		case 2:
+			o, n = []interface{}{o}, []interface{}{n}
+		default:
+			s := genScalar(r)
+			o, n = []interface{}{s, o}, []interface{}{s, n}
+		}
+	}
+	return o, n
+}
+
 func mutate(r *vh.Rng, v interface{}, depth int) interface{} {
 	if r.Chance(8) {
 		return genValue(r, depth)
@@ -562,6 +589,15 @@ func main() {
 			old := genValue(cr, depth)
 			var c Case
 			switch k := cr.Intn(100); {
+			case k < 4:
+				// deep, narrow values: a spine of 20..200 nested objects / arrays above a small value; the new value
+				// is an equal copy or differs only at the bottom (recursion limits, per-level costs)
+				d := 20 + cr.Intn(60)
+				if cr.Chance(40) {
+					d = 80 + cr.Intn(121)
+				}
+				o, n := genSpine(cr, d)
+				c = Case{Old: o, New: n, Origin: "deep"}
 			case k < 70:
 				c = Case{Old: old, New: mutate(cr, old, depth), Shared: true, Origin: "mutation"}
 			case k < 85:
@@ -630,7 +666,16 @@ func main() {
 		ob.stripOld, _ = roundTrip(diff.StripKey(old))
 		ob.stripNew, _ = roundTrip(diff.StripKey(nw))
 		run.Hist("origin:" + strings.SplitN(c.Origin, ":", 2)[0])
-		run.Hist(fmt.Sprintf("depth:%d", depthOf(c.New)))
+		switch dd := depthOf(c.New); {
+		case dd >= 80:
+			run.Hist("depth:80+")
+		case dd >= 20:
+			run.Hist("depth:20-79")
+		case dd >= 5:
+			run.Hist("depth:5-19")
+		default:
+			run.Hist(fmt.Sprintf("depth:%d", dd))
+		}
 		key := js(c.Old) + "|" + js(c.New)
 		if d == nil {
 			run.Hist("delta:nil")
